@@ -53,3 +53,10 @@ Theorem C09_plain_sequence_refuted :
   In (QS 2 5) (snd (run T o1 8 5 0 false 0)) /\ ~ comm o1 o2 phi (QS 2 5) /\
   fst (run T o1 8 5 0 false 0) = Ok 8 false /\ fst (run T o2 11 5 0 false (phi 0)) = Fail.
 Proof. exact C09_plain_sequence_refuted_pf. Qed.
+
+(* the answer of the engine model is well defined: whenever two amounts of fuel both suffice, they give the same outcome *)
+Theorem C09_fuel_independent : forall T o len f1 f2 i raw pos,
+  simb T T (id_rel (length T)) [] [] = true -> In (i, i) (id_rel (length T)) ->
+  is_abort (fst (run T o len f1 i raw pos)) = false -> is_abort (fst (run T o len f2 i raw pos)) = false ->
+  fst (run T o len f2 i raw pos) = fst (run T o len f1 i raw pos).
+Proof. exact run_fuel_independent_pf. Qed.
